@@ -115,8 +115,69 @@ pub fn total(tier: u8) -> usize {
     }
 }
 
+/// Programs in which state surviving from one iteration into the next becomes visible: both threads use SeqCst
+/// fences (global SeqCst view), the reader may still read stale values.
+fn leak_probe_prog(i: usize) -> lit::Prog {
+    use lit::{Op, Ord_::*};
+    let ld = |loc, ord| Op::Load { loc, ord };
+    let st = |loc, val, ord| Op::Store { loc, val, ord };
+    let f = |ord| Op::Fence { ord };
+    match i {
+        0 => lit::Prog { nlocs: 2, pre: vec![], threads: vec![vec![], vec![f(Sc), ld(1, Rlx), ld(0, Rlx)], vec![st(0, 1, Rlx), st(1, 2, Rlx), f(Sc)]] },
+        1 => lit::Prog { nlocs: 3, pre: vec![], threads: vec![vec![], vec![st(2, 5, Rlx), f(Sc), ld(1, Rlx), ld(0, Rlx)], vec![st(0, 1, Rlx), st(1, 2, Rlx), f(Sc), ld(2, Rlx)]] },
+        2 => lit::Prog { nlocs: 2, pre: vec![], threads: vec![vec![f(Sc), ld(0, Rlx)], vec![st(0, 1, Rlx), f(Sc), ld(1, Rlx)], vec![st(1, 2, Rlx), f(Sc)]] },
+        _ => lit::Prog { nlocs: 2, pre: vec![], threads: vec![vec![], vec![f(Sc), ld(1, Acq), ld(0, Rlx)], vec![st(0, 1, Rlx), f(Sc), st(1, 2, Rel)], vec![f(Sc), ld(0, Rlx)]] },
+    }
+}
+
+/// An iteration must behave as if it were the first one of a fresh process: stop the model at every iteration k
+/// (checkpoint interval 1), resume from the checkpoint — the resumed run starts with pristine state — and compare
+/// with the uninterrupted run, whose iteration k ran after k - 1 others in the same Execution.
+fn leak_probe(rec: &mut Rec, i: usize, seed: u64) {
+    let p = leak_probe_prog(i);
+    rec.prog = p.s();
+    rec.hash = p.hash();
+    rec.extra = json!({"family": "iso"});
+    let cfg = lit::Cfg { iter_cap: 50_000, keep_paths: true, keep_seq: true, ..Default::default() };
+    let full = lit::run(&p, &cfg);
+    rec.runs += 1;
+    rec.iters += full.iters as u64;
+    if full.panic.is_some() {
+        rec.v("unexpected_panic", "", full.panic.clone().unwrap_or_default());
+        return;
+    }
+    let n = full.iters;
+    let dir = verif_root().join("work");
+    let _ = std::fs::create_dir_all(&dir);
+    let file = dir.join(format!("iso-ckpt-{}-{}-{}.json", std::process::id(), seed, i)).to_string_lossy().to_string();
+    let step = (n / 40).max(1);
+    let mut compared = 0;
+    for k in (2..=n).step_by(step) {
+        let _ = std::fs::remove_file(&file);
+        let _ = lit::run(&p, &lit::Cfg { checkpoint_file: Some(file.clone()), checkpoint_interval: Some(1), max_permutations: Some(k), ..cfg.clone() });
+        // the resumed run only needs its first few iterations
+        let rest = lit::run(&p, &lit::Cfg { checkpoint_file: Some(file.clone()), checkpoint_interval: Some(1), max_permutations: Some(4), ..cfg.clone() });
+        rec.runs += 2;
+        rec.iters += rest.iters as u64;
+        compared += 1;
+        let m = rest.seq.len().min(n - (k - 1));
+        if m == 0 || rest.seq[..m] != full.seq[k - 1..k - 1 + m] {
+            let j = (0..m).find(|&j| rest.seq[j] != full.seq[k - 1 + j]).unwrap_or(0);
+            rec.v("iteration_state_leaks", "", format!("iteration {} of the uninterrupted run produced {:?}, the same decision path explored from pristine state (resumed from its checkpoint) produces {:?}: something survived from the earlier iterations", k + j, full.seq.get(k - 1 + j), rest.seq.get(j)));
+            break;
+        }
+    }
+    let _ = std::fs::remove_file(&file);
+    rec.nontrivial = n >= 2;
+    rec.extra = json!({"family": "iso", "iterations": n, "iterations_compared_with_a_pristine_replay": compared});
+}
+
 pub fn work(tier: u8, seed: u64, idx: usize) -> Rec {
     let mut rec = Rec::new(idx);
+    if idx < 4 {
+        leak_probe(&mut rec, idx, seed);
+        return rec;
+    }
     let (p, s) = progs(seed, idx);
     rec.prog = format!("{}   &   {}", p.s(), s.s());
     rec.hash = fnv(&rec.prog);
